@@ -53,6 +53,9 @@ func TestSmoke(t *testing.T) {
 			}
 			if strings.Join(res.PrintMultiset(), ",") != strings.Join(rf.Labels(), ",") {
 				stats["MULTISET"]++
+				if stats["MULTISET"] < 4 {
+					fmt.Println(src, "\nIMPL", len(res.PrintMultiset()), "REF", len(rf.Labels()), rf.Err, "mode", m, "budget", res.Budget)
+				}
 				continue
 			}
 			if ok, _ := rf.Linearizes(res.Prints); !ok {
